@@ -571,6 +571,11 @@ def c14_directive_between_shared_label_do_statements():
     return _only_syntax_error_free("subroutine w(a, n)\n  integer n, i, j\n  real a(n, n)\n  do 10 i = 1, n\n#define N 3\n  do 10 j = 1, n\n    a(i, j) = 0\n10 continue\nend subroutine w\n")
 
 
+def c08_implicit_spec_with_surplus_parenthesis():
+    """D65"""
+    return _rejected("subroutine s\n  implicit real (a-h, o-z), integer ((i-n)\n  x = 1\nend subroutine s\n")
+
+
 def c14_directive_backslash_at_eof():
     """D9: a directive whose last line ends in a backslash at end of input is lost"""
     r = _reader("x = 1\n#define X \\\n")
